@@ -300,3 +300,88 @@ Theorem string_true_pinned_capitalised :
   in_domain (VStr s_true) = true /\
   exists e t, set_et (VStr s_true) = Ok (e, t) /\ get_et_pinned e = Ok (VStr s_True) /\ same_value (VStr s_true) (VStr s_True) = false.
 Proof. split; [reflexivity|]. do 2 eexists. repeat split; reflexivity. Qed.
+
+(* ---- set_value_and_type with arguments (percentage, currency, formula) and the type reported with the value *)
+Lemma set_et_full_default v : set_et_full None None None v = model_set SetET v.
+Proof.
+  destruct v; try reflexivity. unfold set_et_full, model_set, set_et, payload_of.
+  cbn [isinstance_bool isinstance_int isinstance_float isinstance_Decimal isinstance_datetime isinstance_date isinstance_str orb default_type].
+  destruct (xml_str s); reflexivity.
+Qed.
+Definition numeric_type (t : str) : bool := str_eqb t t_float || str_eqb t t_percentage || str_eqb t t_currency.
+Theorem typed_number_roundtrip_lemma vt cur fo v e : is_num v = true -> in_domain v = true -> numeric_type vt = true ->
+  set_et_full (Some vt) cur fo v = Ok e ->
+  exists r, get_et_typed e = Ok (r, Some vt) /\ same_value v r = true /\ a_currency e = (if str_eqb vt t_currency then cur else None) /\
+            others e = match fo with Some f => [(n_formula, f)] | None => [] end.
+Proof.
+  intros Hn Hd Ht. destruct (num_text v Hn Hd) as (d & Hnv & Htx). pose proof (dec_of_text_not_tf _ _ Htx) as Hnt.
+  destruct (read_number_same true v _ d Hn Hnv Htx) as (r & Hr & S).
+  assert (Hp : payload_of v = Ok (py_str_num v)) by (destruct v; try discriminate; reflexivity).
+  remember (py_str_num v) as s eqn:Es.
+  assert (Hset : set_et_full (Some vt) cur fo v =
+    Ok (mkelem (Some vt) (if str_eqb vt t_boolean then Some s else None)
+               (if str_eqb vt t_float || str_eqb vt t_percentage || str_eqb vt t_currency then Some s else None)
+               (if str_eqb vt t_date then Some s else None) (if str_eqb vt t_string then Some s else None) (if str_eqb vt t_time then Some s else None) None
+               (if str_eqb vt t_currency then cur else None) (Some vt) (if str_eqb vt t_float || str_eqb vt t_percentage then Some s else None)
+               (match fo with Some f => [(n_formula, f)] | None => [] end))).
+  { unfold set_et_full. rewrite Hp. destruct v; try discriminate; reflexivity. }
+  rewrite Hset. intros [= <-]. exists r. split; [|split; [exact S | split; reflexivity]].
+  unfold numeric_type in Ht. unfold get_et_typed.
+  assert (Hget : forall t, t = t_float \/ t = t_percentage \/ t = t_currency ->
+     get_et (mkelem (Some t) (if str_eqb t t_boolean then Some s else None)
+               (if str_eqb t t_float || str_eqb t t_percentage || str_eqb t t_currency then Some s else None)
+               (if str_eqb t t_date then Some s else None) (if str_eqb t t_string then Some s else None) (if str_eqb t t_time then Some s else None) None
+               (if str_eqb t t_currency then cur else None) (Some t) (if str_eqb t t_float || str_eqb t t_percentage then Some s else None)
+               (match fo with Some f => [(n_formula, f)] | None => [] end)) = read_number true s).
+  { intros t [-> | [-> | ->]]; unfold get_et, get_et_gen; cbn [vtype a_value];
+      match goal with |- context [get_attribute ?a] => change a with (Some s) end; rewrite (get_attribute_str s Hnt); reflexivity. }
+  assert (Hvt : vt = t_float \/ vt = t_percentage \/ vt = t_currency).
+  { destruct (str_eqb vt t_float) eqn:E1; [left; now apply str_eqb_eq|]. destruct (str_eqb vt t_percentage) eqn:E2; [right; left; now apply str_eqb_eq|].
+    destruct (str_eqb vt t_currency) eqn:E3; [right; right; now apply str_eqb_eq | discriminate]. }
+  rewrite (Hget vt Hvt), Hr. reflexivity.
+Qed.
+(* without a type argument the type reported is the one of the Python type *)
+Theorem default_type_reported_lemma v : in_domain v = true ->
+  exists e r, model_set SetET v = Ok e /\ get_et_typed e = Ok (r, default_type v) /\ same_value v r = true.
+Proof.
+  intros Hd. destruct (roundtrip_lemma SetET GetET v eq_refl) as (e & r & Hs & Hg & S).
+  { unfold in_domain_for. rewrite Hd. destruct v; reflexivity. }
+  exists e, r. split; [exact Hs|]. split; [|exact S]. unfold get_et_typed. unfold model_get in Hg. rewrite Hg. f_equal. f_equal.
+  destruct v; cbn in Hs; try (injection Hs as <-; reflexivity); try discriminate.
+  unfold model_set, set_et in Hs. cbn [isinstance_bool isinstance_int isinstance_float isinstance_Decimal isinstance_datetime isinstance_date isinstance_str orb] in Hs.
+  destruct (xml_str s); [injection Hs as <-; reflexivity | discriminate].
+Qed.
+
+(* ---- writing into a repeated run changes exactly one logical cell *)
+Lemma repeat_elem_length n : length (repeat_elem n) = n.
+Proof. induction n; cbn; auto. Qed.
+Theorem grid_set_same i e l : nth i (grid_set i e l) empty_elem = e.
+Proof.
+  unfold grid_set.
+  assert (Hl : length (firstn i (l ++ repeat_elem (i - length l))) = i).
+  { rewrite firstn_length, app_length, repeat_elem_length. lia. }
+  rewrite app_nth2 by lia. rewrite Hl, Nat.sub_diag. reflexivity.
+Qed.
+Lemma nth_firstn_lt' {A} (l : list A) : forall i j d, j < i -> nth j (firstn i l) d = nth j l d.
+Proof. induction l as [|x l IH]; intros [|i] [|j] d H; cbn; try lia; auto. apply IH. lia. Qed.
+Lemma nth_skipn' {A} (l : list A) : forall n k d, nth k (skipn n l) d = nth (n + k) l d.
+Proof. induction l as [|x l IH]; intros [|n] k d; cbn; auto. destruct k; reflexivity. Qed.
+Theorem grid_set_other i j e l : j <> i -> nth j (grid_set i e l) empty_elem = nth j l empty_elem.
+Proof.
+  intros Hne. unfold grid_set.
+  assert (Hl : length (firstn i (l ++ repeat_elem (i - length l))) = i).
+  { rewrite firstn_length, app_length, repeat_elem_length. lia. }
+  assert (Hrep : forall n k, nth k (repeat_elem n) empty_elem = empty_elem).
+  { induction n; destruct k; cbn; auto. }
+  destruct (Nat.lt_ge_cases j i) as [Hlt|Hge].
+  - rewrite app_nth1 by lia. rewrite nth_firstn_lt' by exact Hlt.
+    destruct (Nat.lt_ge_cases j (length l)).
+    + now rewrite app_nth1.
+    + rewrite app_nth2 by lia. rewrite Hrep. now rewrite nth_overflow.
+  - rewrite app_nth2 by lia. rewrite Hl. destruct (j - i) as [|k] eqn:E; [lia|]. cbn [nth].
+    rewrite nth_skipn'. f_equal. lia.
+Qed.
+Theorem grid_set_length i e l : length (grid_set i e l) = Nat.max (S i) (length l).
+Proof.
+  unfold grid_set. rewrite app_length, firstn_length, app_length, repeat_elem_length. cbn [length]. rewrite skipn_length. lia.
+Qed.
